@@ -21,6 +21,7 @@ from ..prov import FuncFacts
 from ..resolve import Ctx, calls_in
 from ..wire import InitFlow
 from ..cfg import guards_of
+from .common import inline_locals
 
 FIXTURES = os.path.join(os.path.dirname(os.path.dirname(os.path.abspath(__file__))), "fixtures")
 
@@ -295,12 +296,28 @@ def _protocol(chk):
                     if isinstance(t, ast.Subscript) and attrs_recv(t.value):
                         wr(const_str(t.slice))
                         wr(const_str(n.value))
-                    if attrs_recv(t) and isinstance(n.value, ast.Dict):
-                        for k, v in zip(n.value.keys, n.value.values):
+                    if attrs_recv(t):
+                        val = inline_locals(FuncFacts.of(fn), n.value)
+                        if isinstance(val, ast.Dict):
+                            for k, v in zip(val.keys, val.values):
+                                wr(const_str(k))
+                                wr(const_str(v))
+                        elif isinstance(val, ast.Call) and isinstance(val.func, ast.Name) and val.func.id == "dict":
+                            for kw in val.keywords:
+                                wr(kw.arg)
+                                wr(const_str(kw.value))
+            if isinstance(n, ast.Call) and isinstance(n.func, ast.Attribute) and n.func.attr == "update" and attrs_recv(n.func.value):
+                for a in n.args:
+                    a = inline_locals(FuncFacts.of(fn), a)
+                    if isinstance(a, ast.Dict):
+                        for k, v in zip(a.keys, a.values):
                             wr(const_str(k))
                             wr(const_str(v))
+                for kw in n.keywords:
+                    wr(kw.arg)
+                    wr(const_str(kw.value))
             if isinstance(n, ast.keyword) and n.arg == "attrs":
-                v = n.value
+                v = inline_locals(FuncFacts.of(fn), n.value)
                 if isinstance(v, ast.Dict):
                     for k in v.keys:
                         wr(const_str(k))
